@@ -6,22 +6,27 @@ from sa.history import world_with_patch
 from sa.loader import World
 from sa.run import ALL_IDS, run_property
 
+ROOT = os.environ.get('ROOT', '/tmp/wt')
+# round 2 seeds are stored as <prop>-c / <prop>-d next to the round 1 seeds -a / -b
+RENAME = {'a': 'c', 'b': 'd'} if os.environ.get('ROUND') == '2' else {}
 clean = World('/repo')
 base = {pid: {o.key for o in run_property(pid, clean).violations()} for pid in ALL_IDS}
 head = subprocess.run(['git','-C','/repo','rev-parse','--short','HEAD'],capture_output=True,text=True).stdout.strip()
 rows = []
-for txt in sorted(os.listdir('/tmp/wt/verified')):
+for txt in sorted(os.listdir(f'{ROOT}/verified')):
     if not txt.endswith('.txt'): continue
     sid = txt[:-4]
-    info = open(f'/tmp/wt/verified/{txt}').read()
+    info = open(f'{ROOT}/verified/{txt}').read()
     prop, var = sid.split('-')
-    src = f'/tmp/wt/out/{prop}/{var}'
+    src = f'{ROOT}/out/{prop}/{var}'
+    vsid = sid
+    sid = f'{prop}-{RENAME.get(var, var)}'
     ok = 'clean_demo_exit=0' in info and 'apply=ok' in info and re.search(r'patched_demo_exit=[1-9]', info) and 'SUITE-OK' in info
     if not ok:
         rows.append((sid, 'NOT-CONFIRMED', info.replace('\n',' ')[:120])); continue
     dst = f'/verif/seeded/{sid}'
     os.makedirs(dst, exist_ok=True)
-    shutil.copy(f'/tmp/wt/verified/{sid}.rebased.diff', f'{dst}/patch.diff')
+    shutil.copy(f'{ROOT}/verified/{vsid}.rebased.diff', f'{dst}/patch.diff')
     shutil.copy(f'{src}/demo.py', f'{dst}/demo.py')
     if os.path.exists(f'{src}/notes.md'): shutil.copy(f'{src}/notes.md', f'{dst}/notes.md')
     world = world_with_patch('/repo', f'{dst}/patch.diff')
@@ -43,7 +48,7 @@ for txt in sorted(os.listdir('/tmp/wt/verified')):
             'demo_on_clean_tree': 'exit 0 (PASS)',
             'demo_on_patched_tree': re.search(r'patched_demo_exit=\d+', info).group(0).replace('patched_demo_exit=', 'exit ') + ' (FAIL)',
             'suite_on_patched_tree': 'SUITE-OK: all 1039 baseline-stable tests pass',
-            'how': 'scratch worktree of /repo under /tmp: cp demo.py; run demo (clean); patch -p1 < patch.diff; run demo; /tmp/wt/tools/suite.py (pytest -n 6, compared with BASELINE.json stable_pass); git checkout -- .',
+            'how': 'scratch worktree of /repo under /tmp: cp demo.py; run demo (clean); patch -p1 < patch.diff; run demo; tools/suite.py (pytest -n 6, compared with BASELINE.json stable_pass); git checkout -- .',
         },
         'caught_by': caught, 'expected_rules': rules,
     }
